@@ -21,11 +21,11 @@ from ..lib import common, pipeline, tlc
 from ..lib.evidence import Report, machinery_failure
 
 PID = "C04"
-KINDS = {"a": "int", "l": "list", "d": "dict", "g.x": "int", "g.y": "int", "s": "str", "n": "optint"}
-FOCI = {"quick": ["a", "l", "d", "g", "s", "n", "al", "dl"], "thorough": ["a", "l", "d", "g", "s", "n", "al", "dl", "adl", "sn"]}
+KINDS = {"a": "int", "l": "list", "d": "dict", "g.x": "int", "g.y": "int", "s": "str", "n": "optint", "my-list": "list", "g.my-list": "list"}
+FOCI = {"quick": ["a", "l", "d", "g", "s", "n", "al", "dl", "ml"], "thorough": ["a", "l", "d", "g", "s", "n", "al", "dl", "adl", "sn", "ml"]}
 
 RICH_KINDS = {"a": "int", "b": "int", "l": "list", "m": "list", "d": "dict", "e": "dict", "g.x": "int", "g.l": "list", "g.h.z": "int", "g.h.d": "dict",
-              "s": "str", "g.t": "str", "n": "optint", "g.h.o": "optint"}
+              "s": "str", "g.t": "str", "n": "optint", "g.h.o": "optint", "my-list": "list", "g.h.my-list": "list"}
 
 
 def rich_defaults():
